@@ -320,7 +320,10 @@ func (d *deriver) run(formatter string) (*Derived, error) {
 	}
 	pkgName := interp.Lit("")
 	moqPkgPath := SrcPath
-	if e.External {
+	if e.DestTest {
+		pkgName = interp.Lit(SrcPkgName + "_test")
+		moqPkgPath = "" // findPkgPath finds no directory for <src>_test
+	} else if e.External {
 		pkgName = interp.Lit(DestPkgName)
 		moqPkgPath = DestPath
 	} else if e.ExplicitSame {
